@@ -195,6 +195,7 @@ def method_set(tier):
                 A.Slice(A.Prim("u16"), "ref", "DiplomatStr16"), A.Slice(A.Prim("u8"), "ref", "DiplomatStr")]
     for t in optinner:
         rshapes.append(A.NullableRet(t))
+        rshapes.append(A.NullableRet(t, "diplomat"))
     rshapes.append(A.NullableRet(A.Unit()))
     rshapes.append(A.NullableRet(A.Slice(A.Prim("u8"), "ref", "str")))
     arms = [A.Unit(), A.Prim("u8"), A.Prim("i64"), A.Prim("f64"), A.Prim("bool"), A.EN, A.ST, structs[1], A.OpaqueBox()]
@@ -326,7 +327,7 @@ def rust_method(m):
                 % (m["name"], gen, ", ".join(params), _ret_sig(m["ret"]), i, dumps, arms))
     if k == "W":
         params.append("w: &mut DiplomatWrite")
-        chunks = "\n".join("                %d => { %s }" % (ci, " ".join("let _ = w.write_str(%s);" % json.dumps(c, ensure_ascii=False) for c in ch))
+        chunks = "\n".join("                %d => { %s }" % (ci, " ".join("let _ = w.write_str(\"%s\");" % "".join("\\u{%x}" % ord(x) for x in c) for c in ch))
                            for ci, ch in enumerate(W_CHUNKS))
         tail = ""
         if m["ret"] is not None:
@@ -366,12 +367,19 @@ def rust_dump_impl(t):
 def render_crate(types, methods):
     L = ["#![allow(unused, non_snake_case, clippy::all, improper_ctypes_definitions, mismatched_lifetime_syntaxes, unpredictable_function_pointer_comparisons)]",
          "pub mod verif_support {", SUPPORT_RS]
-    L.append("use super::ffi;")
+    L.append("use crate::ffi;")
     L.append("impl Dump for ffi::Op { fn dump(&self, s: &mut String) { let _ = write!(s, \"op#{}\", self.0); } }")
     for e in types["enums"]:
         L.append(rust_dump_impl(e))
     for st in types["structs"]:
         L.append(rust_dump_impl(st))
+    L.append("#[no_mangle]\npub extern \"C\" fn verif_ret_size(i: u32) -> usize {\n    match i {")
+    for m in methods:
+        if m["kind"] == "R" and isinstance(m["ret"], (A.Result, A.NullableRet)):
+            ft = A.rust_ffi_type(m["ret"])
+            if ft:
+                L.append("        %d => core::mem::size_of::<%s>()," % (m["i"], ft))
+    L.append("        _ => 0,\n    }\n}")
     L.append("}")
     L.append("#[diplomat::bridge]\npub mod ffi {")
     L.append("    use crate::verif_support::{Dump, AsChar, log_call, sel};")
@@ -379,7 +387,6 @@ def render_crate(types, methods):
     L.append("    #[diplomat::opaque]\n    pub struct Op(pub u32);")
     L.append("    impl Op {\n        pub fn new(id: u32) -> Box<Op> { Box::new(Op(id)) }\n        pub fn id(&self) -> u32 { self.0 }\n    }")
     for e in types["enums"]:
-        L.append("    #[derive(Clone, Copy)]")
         L.append(e.decl())
     for st in types["structs"]:
         L.append(st.decl())
@@ -560,8 +567,12 @@ def render_c_driver(types, methods, headers):
     cases = expand_cases(methods)
     for (m, j, c) in cases:
         L.append(c_case(m, j, c))
+    L.append("extern size_t verif_ret_size(uint32_t i);")
     L.append("int main(int argc, char** argv) {")
     L.append("    (void)argc; (void)argv;")
+    for m in methods:
+        if m["kind"] == "R" and isinstance(m["ret"], (A.Result, A.NullableRet)) and A.rust_ffi_type(m["ret"]):
+            L.append('    printf("SZ %d %%llu %%llu\\n", (unsigned long long)sizeof(%s_%s()), (unsigned long long)verif_ret_size(%d));' % (m["i"], m["owner"], m["name"], m["i"]))
     for (m, j, c) in cases:
         L.append("    c_%d_%d();" % (m["i"], j))
     L.append('    printf("DONE\\n");\n    return 0;\n}')
